@@ -163,6 +163,9 @@ def nibble_syms(I, st):
 def justify(I, ctx, s_err, oks):
     """why may this edge reject?  -> reason string or None"""
     nibs = nibble_syms(I, s_err)
+    cr = s_err.ghost.get(("inj", "callee-rejected"))
+    if cr and ctx.body["path"] != cr:
+        return "propagates the rejection decided in %s" % cr
     crf = s_err.ghost.get(("inj", "checked-read-failed"))
     if crf:
         return "a checked read (slice::get) of the input came back empty at %s: the bytes are not there" % crf
@@ -259,6 +262,18 @@ def check(env, rep, tier):
             else:
                 e["why"].add(why)
         I.edge_hooks.append(edge_hook)
+
+        # a rejection raised inside a crate function on the decode path is examined there (its own rejecting branches
+        # go through justify()); the caller's `?` that merely hands it on is marked as a propagation
+        def mark_err(I_, ctx, outs):
+            for s_, rv_ in outs:
+                if isinstance(rv_, EnumV) and rv_.path == "core::result::Result" and list(rv_.variants) == [1]:
+                    s_.ghost[("inj", "callee-rejected")] = ctx.body["path"]
+        for ob in prog.bodies.values():
+            if ob.get("promoted") or ob["id"] == body["id"] or ob.get("kind") == "Closure":
+                continue
+            if prog.types[ob["locals"][0]["ty"]]["s"].startswith("core::result::Result<") and ob["id"] not in I.return_hooks:
+                I.return_hooks[ob["id"]] = mark_err
         I, res = run(prog, body, I=I)
         obs = report_obligations(rep, "C03.1", I, include_cast=True)
         if cfg == "default":
